@@ -4,7 +4,9 @@
 (*   e2  one-shot, one signal, on either loop                                 *)
 (*   e3  persistent on signal 1, on either loop (or unused)                   *)
 EXTENDS Signals
-E(u, l, s, o) == [used |-> u, L |-> l, sigs |-> s, os |-> o]
+EP(u, l, s, o, p) == [used |-> u, L |-> l, sigs |-> s, os |-> o, prog |-> p]
+E(u, l, s, o) == EP(u, l, s, o, <<>>)
+Do(o, a) == [o |-> o, a |-> a]
 CfgFull ==
   { [e \in Events |-> CASE e = 1 -> E(TRUE, 1, {1, 2}, o1)
                         [] e = 2 -> E(TRUE, l2, {s2}, TRUE)
@@ -22,4 +24,23 @@ CfgWide ==
                         [] e = 3 -> E(TRUE, l3, {1}, FALSE)
                         [] OTHER -> E(TRUE, 3, {1, 3}, FALSE)] :
       o1 \in BOOLEAN, l2 \in {1, 2}, s2 \in {1, 3}, l3 \in {2, 3} }
+\* callbacks that change subscriptions (MC_cb.cfg, Gen_cb.cfg, Gen_hold.cfg)
+\*  CbSwap: e1 is the only subscription of loop 1; its callback disables it (the loop closes its pipe) and enables e3
+\*          (a new pipe, usually with the same descriptor numbers, while the old pipe event still awaits its deferred deletion)
+CbSwap ==
+  [e \in Events |-> CASE e = 1 -> EP(TRUE, 1, {1}, FALSE, <<Do("disable", 1), Do("enable", 3)>>)
+                       [] e = 2 -> E(TRUE, 2, {1}, TRUE)
+                       [] OTHER -> E(TRUE, 1, {2}, FALSE)]
+\*  CbGroup: e1 and e3 share signal 1 in loop 1; whichever is served first disables both; e2 (signal 2, same loop) stays
+CbGroup ==
+  [e \in Events |-> CASE e = 1 -> EP(TRUE, 1, {1}, FALSE, <<Do("disable", 1), Do("disable", 3)>>)
+                       [] e = 2 -> E(TRUE, 1, {2}, FALSE)
+                       [] OTHER -> EP(TRUE, 1, {1}, FALSE, <<Do("disable", 1), Do("disable", 3)>>)]
+\*  CbMix: a multi-signal one-shot that re-enables itself; a callback that enables a second subscriber of the signal
+\*         being served (same loop)
+CbMix ==
+  [e \in Events |-> CASE e = 1 -> EP(TRUE, 1, {1, 2}, TRUE, <<Do("enable", 1)>>)
+                       [] e = 2 -> EP(TRUE, 2, {1}, FALSE, <<Do("enable", 3)>>)
+                       [] OTHER -> E(TRUE, 2, {1}, FALSE)]
+CfgCb == {CbSwap, CbGroup, CbMix}
 =============================================================================
